@@ -205,8 +205,27 @@ def alternatives(program, g):
         g = g[1]
     if g[0] != "alt":
         return None
-    out = []
+    # an alternative that is itself a named sub-parser made of alternatives (`alt((parse_ip_quirk, parse_tcp_quirk))`) contributes its
+    # own alternatives, in place
+    flat = []
+
+    def expand(a, depth=0):
+        if a[0] == "sub" and depth < 4 and a[1] in program.bodies:
+            try:
+                sg = parser_grammar(program, program.bodies[a[1]])
+            except AnchorMissing:
+                sg = None
+            if sg is not None and sg[0] == "map" and sg[1][0] == "alt" and False:
+                sg = sg[1]
+            if sg is not None and sg[0] == "alt":
+                for x in sg[1]:
+                    expand(x, depth + 1)
+                return
+        flat.append(a)
     for a in g[1]:
+        expand(a)
+    out = []
+    for a in flat:
         pieces = merge_lits(flatten(program, a))
         vs = set()
         _collect_actions(program, a, vs)
